@@ -247,14 +247,14 @@ inductive HasType (Γ : Env) : IExpr → ETy → Prop where
       HasArgs Γ args ts → opReturn o ts = .ok τ → HasType Γ (.op o args) τ
   /-- swizzle of a scalar (`f.xxx`): only slot `X` -/
   | swizzleS {e : IExpr} {t : ETy} {s : Scalar} {slots : List Nat} :
-      HasType Γ e t → t.ty.layer = .scalar s → slots ≠ [] → (∀ k ∈ slots, k < 1) →
+      HasType Γ e t → t.ty.layer = .scalar s → slots ≠ [] → slots.length ≤ 4 → (∀ k ∈ slots, k < 1) →
       HasType Γ (.swizzle e slots) ⟨⟨t.ty.mod, swizzleLayer s slots.length⟩, swizzleVT slots t.vt⟩
   /-- swizzle of a vector: every slot below the width -/
   | swizzleV {e : IExpr} {t : ETy} {s : Scalar} {n : Nat} {slots : List Nat} :
-      HasType Γ e t → t.ty.layer = .vector s n → slots ≠ [] → (∀ k ∈ slots, k < n) →
+      HasType Γ e t → t.ty.layer = .vector s n → slots ≠ [] → slots.length ≤ 4 → (∀ k ∈ slots, k < n) →
       HasType Γ (.swizzle e slots) ⟨⟨t.ty.mod, swizzleLayer s slots.length⟩, swizzleVT slots t.vt⟩
   | mswizzle {e : IExpr} {t : ETy} {s : Scalar} {x y : Nat} {slots : List (Nat × Nat)} :
-      HasType Γ e t → t.ty.layer = .matrix s x y → slots ≠ [] → (∀ k ∈ slots, k.1 < x ∧ k.2 < y) →
+      HasType Γ e t → t.ty.layer = .matrix s x y → slots ≠ [] → slots.length ≤ 4 → (∀ k ∈ slots, k.1 < x ∧ k.2 < y) →
       HasType Γ (.mswizzle e slots) ⟨⟨t.ty.mod, swizzleLayer s slots.length⟩, swizzleVT slots t.vt⟩
   | indexV {a i : IExpr} {t ti : ETy} {s : Scalar} {n : Nat} :
       HasType Γ a t → HasType Γ i ti → t.ty.layer = .vector s n →
